@@ -44,12 +44,14 @@ def run(rec, cfg):
         if cfg.out_of_time():
             rec.truncated = True
             break
-        root = RC.parse_start(text)
+        big = src == "big-text"
+        root = RC.parse_start(text, allow_big=big)
+        use = RC.rules_for(src, rules)
         if root is None:
             continue
         rec.arm("start:" + src)
         k += 1
-        if k % 4 == 0:
+        if k % 4 == 0 and not big:
             # episode: dangling parent pointers / aliased subtrees show up on later steps
             ep = D.Episode(root, rng, policy=rng.choice(["balanced", "novelty"]))
             for _ in range(rng.randint(10, 40)):
@@ -69,8 +71,8 @@ def run(rec, cfg):
         for depth in range(3):
             nxt = []
             for r in frontier:
-                for label, idx, new_root in D.apply_everywhere(rec, r, rules, rng, cap=6 if depth == 0 else 2, check_original=True):
-                    if new_root is not None and not D.too_big(S.shadow(new_root)):
+                for label, idx, new_root in D.apply_everywhere(rec, r, use, rng, cap=6 if depth == 0 else 2, check_original=True):
+                    if new_root is not None and not D.too_big(S.shadow(new_root), big):
                         nxt.append(new_root)
             if not nxt:
                 break
